@@ -220,7 +220,7 @@ def _least_squares_magnitude_recovery(con, alpha_reduced, v_reduced, zero_tol):
     else:
         n = con.alpha.shape[1]
     if n > con.alpha.shape[1]:
-        padding = np.zeros(shape=(alpha_reduced.shape[0], n - con.alpha.shape[1].n))
+        padding = np.zeros(shape=(alpha_reduced.shape[0], n - con.alpha.shape[1]))
         alpha_reduced = np.hstack((alpha_reduced, padding))
     y = cl.Variable(shape=(n,), name='abs moment mag recovery')
     are_nonzero = v_abs > np.sqrt(zero_tol)
@@ -237,7 +237,7 @@ def _least_squares_magnitude_recovery(con, alpha_reduced, v_reduced, zero_tol):
     prob = cl.Problem(cl.MIN, t, constraints)
     prob.solve(verbose=False)
     if prob.status in {cl.SOLVED, cl.INACCURATE} and prob.value < np.inf:
-        mag = np.exp(y.value.astype(np.longdouble))
+        mag = np.exp(y.value[:con.alpha.shape[1]].astype(np.longdouble))
         return mag
     else:
         return None
